@@ -22,6 +22,23 @@ Example framing_chunk_independent_ex :
   /\ frames_stream stream = [[66;0;120;1;0;0;0;2;9;9]; [66;0;120;1;0;0;0;0]].
 Proof. vm_compute. split; reflexivity. Qed.
 
+(* 1b. A connection whose peer sends bytes in non-empty chunks always ends with ConnectionClosed - the ValueError of
+       _receive_bytes cannot happen - and recv is never asked for more than the 4096-byte buffer nor for more than
+       the frame still lacks (an absurd length field costs no memory and reads nothing beyond what the peer sent). *)
+Theorem connection_ends_closed : forall cs,
+  Forall nonempty cs -> bytes_ok (concat cs) = true -> snd (frames_conn cs) = EndClosed.
+Proof. exact frames_conn_ends_closed. Qed.
+Print Assumptions connection_ends_closed.
+Example connection_ends_closed_ex :
+  let cs := [[66;0;120;1];[0;0;0;200;1;2;3]] in      (* announces 200 bytes, delivers 3 *)
+  Forall nonempty cs /\ bytes_ok (concat cs) = true /\ frames_conn cs = ([], [8; 4; 200; 197], EndClosed).
+Proof. split; [repeat constructor; discriminate | vm_compute; split; reflexivity]. Qed.
+
+Theorem reads_bounded : forall fuel remaining cs,
+  Forall (fun n => 0 < n <= 4096 /\ n <= remaining) (asked_of (recv_loop fuel remaining cs)).
+Proof. exact recv_asked_bounded. Qed.
+Print Assumptions reads_bounded.
+
 Section AnyParserAnyEngine.
   Variable request : Type.
   Variable parse : bytes -> option request.
